@@ -203,7 +203,7 @@ func eq(validName string, tv reflect.Value) (eqStr, uintStr, cusMsg string, isEq
 			isEq = false
 		}
 	case reflect.Uint, reflect.Uint8, reflect.Uint16, reflect.Uint32, reflect.Uint64:
-		if tv.Uint() != uint64(eqInt) {
+		if eqInt < 0 || tv.Uint() != uint64(eqInt) {
 			isEq = false
 		}
 	case reflect.Float32, reflect.Float64:
